@@ -69,8 +69,8 @@ def obligations():
             quick_pre="total <= 2 and chunk <= 2 and not b2", timeout_thorough=2400),
     ]
     o += [
-        Obl("C02.pdb.load_frame", "xh", "harness.c02", "pdb_load_frame", ["mdtraj.formats.pdb.pdbfile.load_pdb"], "total<=5 models, every frame index in [-total, total), with / without every non-empty atom subset",
-            "load_pdb(frame=i, atom_indices=) is frame i of the full load restricted to the atoms: coordinates, time stamp, cell, topology (PDBTrajectoryFile stubbed by its parsed content)", 200),
+        Obl("C02.pdb.load_frame", "xh", "harness.c02", "pdb_load_frame", ["mdtraj.formats.pdb.pdbfile.load_pdb"], "total<=5 models, every frame index in [-total, total), stride None or 1..3 (documented: ignored), with / without every non-empty atom subset",
+            "load_pdb(frame=i, atom_indices=) is frame i of the full load restricted to the atoms: coordinates, time stamp, cell, topology (PDBTrajectoryFile stubbed by its parsed content)", 300, quick_pre="total <= 4 and stride <= 2 and (not use_atoms or (b0 and not b2))"),
         Obl("C02.pdb.load_stride", "xh", "harness.c02", "pdb_load_stride", ["mdtraj.formats.pdb.pdbfile.load_pdb"], "total<=6, stride None or 1..4, with / without atom subsets",
             "load_pdb(stride=s, atom_indices=) == full[::s] restricted to the atoms, times included", 200),
     ]
